@@ -937,6 +937,10 @@ def run(pid, tier):
     # 2. driver first (it only needs the model and the generated table), then the proofs
     okd, dlog = vlib.lake_build(["lockdriver"])
     proved = vlib.prove(rep, P["modules"], P["theorems"], extra_targets=[])
+    if pid == "C06":
+        import cfuncheck
+        if pid in cfuncheck.LINKS and pid in cfuncheck.ENABLED:
+            cfuncheck.link(rep, pid)     # translation tie of the handlers that decide between the live tables and the shadow tables
     drv = vlib.driver_path("lockdriver")
     ir_bad, ir_table = ([], {})
     if okd and os.path.exists(drv):
